@@ -337,4 +337,22 @@ theorem sealed_eq_scan (pf : Bytes → Option Int) (maxKey : Int) (token : Token
         obtain ⟨i, hi, rfl⟩ := List.mem_iff_getElem.mp hb
         exact hout i hi (by omega) v hvb
 
+/-- a sequence of calls on one sealed index: every answer is the scan of that call's own field with that call's own
+token - earlier calls (other hints, other fields) have no influence -/
+theorem sealedSearchSeq_stateless (pf : Bytes → Option Int) (maxKey : Int) (fields : List (Nat × List (List Bytes)))
+    (hok : ∀ fb ∈ fields, BlocksOK fb.2) (calls : List (Nat × Token))
+    (hc : ∀ c ∈ calls, c.1 < fields.length ∧
+      (search pf maxKey c.2 ⟨(fields.getD c.1 (0, [])).1, (fields.getD c.1 (0, [])).2.flatten, false⟩).isSome = true) :
+    sealedSearchSeq pf maxKey fields calls =
+      calls.map fun c => search pf maxKey c.2 ⟨(fields.getD c.1 (0, [])).1, (fields.getD c.1 (0, [])).2.flatten, false⟩ := by
+  simp only [sealedSearchSeq]
+  apply List.map_congr_left
+  intro c hcm
+  obtain ⟨hlt, hsome⟩ := hc c hcm
+  have hmem : fields.getD c.1 (0, []) ∈ fields := by
+    rw [List.getD_eq_getElem?_getD, List.getElem?_eq_getElem hlt, Option.getD_some]; exact List.getElem_mem hlt
+  obtain ⟨res, hres⟩ := Option.isSome_iff_exists.mp hsome
+  rw [hres]
+  exact sealed_eq_scan pf maxKey c.2 _ _ (hok _ hmem) res hres
+
 end SV.Pattern
